@@ -54,6 +54,12 @@ def case(draw, P, allow_empty, with_reduce):
             nt, NB, padn = mt, MB, padm
         return "A %d %d %d %d %d %d %d %d %d %d %d\n" % (uplo, dist, mt, nt, MB, NB, padm, padn, Prow, kp, kq), 0, 0
     if k == "M":
+        if draw(st.integers(0, 4)) == 0:
+            # many narrow columns, one element per tile: the operator's columns are handed out to the worker threads
+            # through a shared counter, and only with many more columns than threads do the hand-outs overlap in time
+            mt, nt = draw(st.integers(1, 3)), draw(st.sampled_from([300, 1000, 4000, 12000]))
+            MB = NB = 1
+            padm = padn = 0
         Q = P // Prow
         excl = 0
         if not allow_empty and not ((mt - 1) // kp >= Prow - 1 and (nt - 1) // kq >= Q - 1):
@@ -83,7 +89,7 @@ def run(tier, seed, res):
     with_reduce = os.environ.get("C22_INCLUDE_REDUCE", "") == "1"
     groups = [(1, 2), (2, 1), (2, 3), (3, 2), (4, 1), (4, 2), (1, 8), (3, 4)] if quick else \
         [(P, T) for P in (1, 2, 3, 4) for T in (1, 2, 4, 8)] * 2
-    per = 60 if quick else 600
+    per = 150 if quick else 1200
     batches, ex1, ex2 = [], 0, 0
     for i, (P, T) in enumerate(groups):
         gen = mb.generate(case(P, allow_empty, with_reduce), per, seed * 1000 + i)
